@@ -274,4 +274,4 @@ def hazards(ctx, world, modes=("vjp", "jvp")):
                 f"{kind}: `{txt}` gives a different result when the axis is written negatively",
                 "the same call with the axis given as a negative number (e.g. axis=-1 instead of axis=ndim-1)",
             )
-    ctx.floor("A7 rules using an axis parameter", n, 25)
+    ctx.floor(f"A7 rules using an axis parameter ({'+'.join(modes)})", n, (25 if "vjp" in modes else 0) + (8 if "jvp" in modes else 0))
